@@ -498,6 +498,7 @@ func init() {
 			r.Require("registration_sequence_early_failures", 50)
 			r.Require("tenant_sequence_requests", 100)
 			return []core.Workload{
+				{Name: "callback_histories", N: c.Pick(120, 1200), Fn: cbHistory("C02")},
 				{Name: "sso_targets", N: c.Pick(900, 9000), Fn: c02SSO},
 				{Name: "callback_targets", N: c.Pick(400, 4000), Fn: c02Callback},
 				{Name: "logout_targets", N: c.Pick(400, 4000), Fn: c02Logout},
